@@ -3106,4 +3106,41 @@ theorem mpz_hamdist_eq (u v : Z) (hu : u.WF) (hv : v.WF) :
     rw [e]; simp only
     rw [hamBody_eq ul vl up vp r2 r1 r3 r4 r5 r6, r7]
 
+theorem natLimbs_spec (v : Nat) : val (natLimbs v) = v ∧ Limbs (natLimbs v) ∧ Norm (natLimbs v) := by
+  induction v using Nat.strongRecOn with
+  | ind v ih =>
+    rw [natLimbs]
+    by_cases h : v = 0
+    · subst h; simp [Limbs_nil, Norm_nil]
+    · rw [dif_neg h]
+      have hB := B_pos
+      have hlt : v / B < v := Nat.div_lt_self (Nat.pos_of_ne_zero h) (by rw [B_eq]; norm_num)
+      obtain ⟨i1, i2, i3⟩ := ih (v / B) hlt
+      refine ⟨by rw [val_cons, i1]; exact Nat.mod_add_div v B, Limbs_cons.mpr ⟨Nat.mod_lt _ hB, i2⟩, ?_⟩
+      by_cases hq : v / B = 0
+      · rw [hq, natLimbs]; simp [Norm]
+        intro h0
+        have := Nat.mod_add_div v B
+        rw [hq, h0] at this; omega
+      · have hne : natLimbs (v / B) ≠ [] := by
+          intro hnil; rw [hnil] at i1; simp at i1; exact hq i1.symm
+        rw [show v % B :: natLimbs (v / B) = [v % B] ++ natLimbs (v / B) from rfl]
+        exact norm_append hne i3
+
+/-- every integer is represented by a well-formed `Z` (what the driver feeds the models) -/
+theorem ofInt_spec (x : Int) : (Z.ofInt x).toInt = x ∧ (Z.ofInt x).WF := by
+  obtain ⟨n1, n2, n3⟩ := natLimbs_spec x.natAbs
+  unfold Z.ofInt
+  refine ⟨?_, n2, n3, ?_⟩
+  · unfold Z.toInt; simp only [n1]
+    by_cases hx : x < 0
+    · simp only [hx, decide_true, if_true]
+      change -((x.natAbs : Nat) : Int) = x; omega
+    · simp only [hx, decide_false, Bool.false_eq_true, if_false]
+      change ((x.natAbs : Nat) : Int) = x; omega
+  · intro hneg hnil
+    simp only [decide_eq_true_eq] at hneg
+    simp only at hnil
+    rw [hnil] at n1; simp at n1; omega
+
 end Mpir.Bits
